@@ -413,103 +413,147 @@ type sharedCase struct {
 	Quads []quadIn `json:"quads"`
 	Ops   []int    `json:"ops"` // per quad: what happens before it (0 nothing, 1 a member joins, 2 a non-sampling member leaves, 3 sampler changes)
 	Who   []int    `json:"who"` // which member (index among the candidates)
+	Two   bool     `json:"two_sessions,omitempty"` // a second session exists; op 4 moves a member between the two
 }
 
 func runShared(t *testing.T, c sharedCase) (viol string) {
 	synctest.Test(t, func(t *testing.T) {
-		cfg := Config{Modules: []string{"dagaz"}, FrameMs: 15, Conns: 8}
+		cfg := Config{Modules: []string{"dagaz"}, FrameMs: 15, Conns: 10}
 		w := NewHWorld(cfg)
 		defer w.Shutdown()
 		ts := &timestamppb.Timestamp{Seconds: 1700000000}
-		ref := dagaz.NewRegularGrid(1, 1, 2)
+		// two sessions, each with its own reference grid; members may move between them
+		ref := []*dagaz.RegularGrid{dagaz.NewRegularGrid(1, 1, 2), dagaz.NewRegularGrid(1, 1, 2)}
 		req := uint32(10)
 		join := func(slot int, sid string) string {
-			w.Connect(slot)
+			if w.RH(slot) == nil {
+				w.Connect(slot)
+			}
 			req++
 			w.Send(slot, &hagallpb.ParticipantJoinRequest{Type: TJoinReq, Timestamp: ts, RequestId: req, SessionId: sid})
 			for _, rx := range w.Inbox(slot) {
-				if jr, ok := rx.M.(*hagallpb.ParticipantJoinResponse); ok {
+				if jr, ok := rx.M.(*hagallpb.ParticipantJoinResponse); ok && jr.RequestId == req {
 					return jr.SessionId
 				}
 			}
 			return ""
 		}
-		sid := join(0, "")
-		join(1, sid)
-		members := []int{0, 1}
-		sampler := 0
+		sids := []string{join(0, ""), ""}
+		join(1, sids[0])
+		members := [][]int{{0, 1}, {}}
+		sampler, samplerSess := 0, 0
 		next := 2
-		creatorLeft := false
-		_ = creatorLeft
+		if c.Two {
+			sids[1] = join(2, "")
+			join(3, sids[1])
+			members[1] = []int{2, 3}
+			next = 4
+		}
 		check := func(stage string) bool {
-			observer := members[len(members)-1]
-			n := len(w.Inbox(observer))
-			req++
-			w.Send(observer, &dagazpb.DagazGetDebugInfoRequest{Type: TDebugReq, Timestamp: ts, RequestId: req})
-			req++
-			w.Send(observer, &dagazpb.DagazGetRegionRequest{Type: TRegionReq, Timestamp: ts, RequestId: req, Min: &dagazpb.Point{X: -1000, Z: -1000}, Max: &dagazpb.Point{X: 1000, Z: 1000}})
-			var planes, quads = -1, -1
-			var got []string
-			for _, rx := range w.Inbox(observer)[n:] {
-				switch m := rx.M.(type) {
-				case *dagazpb.DagazGetDebugInfoResponse:
-					planes = int(m.GridPlaneCount)
-				case *dagazpb.DagazGetRegionResponse:
-					quads = len(m.Quads)
-					for _, q := range m.Quads {
-						got = append(got, fmt.Sprintf("%v/%v/%d", q.Center, q.Extents, q.MergeCount))
+			for k := range members {
+				if len(members[k]) == 0 {
+					continue
+				}
+				observer := members[k][len(members[k])-1]
+				n := len(w.Inbox(observer))
+				req++
+				w.Send(observer, &dagazpb.DagazGetDebugInfoRequest{Type: TDebugReq, Timestamp: ts, RequestId: req})
+				req++
+				w.Send(observer, &dagazpb.DagazGetRegionRequest{Type: TRegionReq, Timestamp: ts, RequestId: req, Min: &dagazpb.Point{X: -1000, Z: -1000}, Max: &dagazpb.Point{X: 1000, Z: 1000}})
+				var planes, quads = -1, -1
+				var got []string
+				for _, rx := range w.Inbox(observer)[n:] {
+					switch m := rx.M.(type) {
+					case *dagazpb.DagazGetDebugInfoResponse:
+						planes = int(m.GridPlaneCount)
+					case *dagazpb.DagazGetRegionResponse:
+						quads = len(m.Quads)
+						for _, q := range m.Quads {
+							got = append(got, fmt.Sprintf("%v/%v/%d", q.Center, q.Extents, q.MergeCount))
+						}
 					}
 				}
-			}
-			var want []string
-			for _, q := range ref.GetRegion(dagaz.NewVector3f(-1000, 0, -1000), dagaz.NewVector3f(1000, 0, 1000)) {
-				want = append(want, fmt.Sprintf("%v/%v/%d", q.Center.ToProtobuf(), q.Extents.ToProtobuf(), q.MergeCount))
-			}
-			sort.Strings(got)
-			sort.Strings(want)
-			if planes != int(ref.PlaneCount) || quads != len(want) || fmt.Sprint(got) != fmt.Sprint(want) {
-				viol = fmt.Sprintf("%s: a member sees %d planes (region query: %d quads), the samples sent so far make %d planes (%d quads)", stage, planes, quads, ref.PlaneCount, len(want))
-				return false
+				var want []string
+				for _, q := range ref[k].GetRegion(dagaz.NewVector3f(-1000, 0, -1000), dagaz.NewVector3f(1000, 0, 1000)) {
+					want = append(want, fmt.Sprintf("%v/%v/%d", q.Center.ToProtobuf(), q.Extents.ToProtobuf(), q.MergeCount))
+				}
+				sort.Strings(got)
+				sort.Strings(want)
+				if planes != int(ref[k].PlaneCount) || quads != len(want) || fmt.Sprint(got) != fmt.Sprint(want) {
+					viol = fmt.Sprintf("%s: a member of session %d (connection %d) sees %d planes (region query: %d quads), the samples sent to that session so far make %d planes (%d quads)", stage, k+1, observer, planes, quads, ref[k].PlaneCount, len(want))
+					return false
+				}
 			}
 			return true
 		}
 		for i, q := range c.Quads {
+			who := c.Who[i%len(c.Who)]
 			switch c.Ops[i%len(c.Ops)] {
 			case 1:
-				if len(members) < 6 {
-					join(next, sid)
-					members = append(members, next)
+				k := 0
+				if c.Two {
+					k = who % 2
+				}
+				if len(members[k]) < 5 && next < 10 {
+					join(next, sids[k])
+					members[k] = append(members[k], next)
 					next++
 					if !check(fmt.Sprintf("after a member joined (before sample %d)", i+1)) {
 						return
 					}
 				}
 			case 2:
-				if len(members) > 2 {
+				k := 0
+				if c.Two {
+					k = who % 2
+				}
+				if len(members[k]) > 2 {
 					// any member but the current sampler may leave, the session's creator included
-					idx := c.Who[i%len(c.Who)] % len(members)
-					if members[idx] == sampler {
-						idx = (idx + 1) % len(members)
+					idx := (who / 2) % len(members[k])
+					if members[k][idx] == sampler {
+						idx = (idx + 1) % len(members[k])
 					}
-					if members[idx] == 0 {
-						creatorLeft = true
-					}
-					w.Close(members[idx])
-					members = append(members[:idx], members[idx+1:]...)
+					w.Close(members[k][idx])
+					members[k] = append(members[k][:idx], members[k][idx+1:]...)
 					if !check(fmt.Sprintf("after a member left (before sample %d)", i+1)) {
 						return
 					}
 				}
 			case 3:
-				sampler = members[(i+1+c.Who[i%len(c.Who)])%len(members)]
+				k := samplerSess
+				if c.Two && who%2 == 1 {
+					k = 1 - k
+				}
+				sampler, samplerSess = members[k][(i+1+who/2)%len(members[k])], k
+			case 4:
+				// a member (possibly the sampler, possibly the last observer) moves to the other session
+				if c.Two {
+					k := who % 2
+					if len(members[k]) > 1 {
+						idx := (who / 2) % len(members[k])
+						slot := members[k][idx]
+						if join(slot, sids[1-k]) != sids[1-k] {
+							viol = fmt.Sprintf("connection %d could not move to the other session", slot)
+							return
+						}
+						members[k] = append(members[k][:idx], members[k][idx+1:]...)
+						members[1-k] = append(members[1-k], slot)
+						if slot == sampler {
+							samplerSess = 1 - k
+						}
+						if !check(fmt.Sprintf("after connection %d moved from session %d to session %d (before sample %d)", slot, k+1, 2-k, i+1)) {
+							return
+						}
+					}
+				}
 			}
 			w.Send(sampler, &dagazpb.DagazQuadSample{Type: TQuadSample, Timestamp: ts, Samples: []*dagazpb.Quad{q.proto()}})
-			ref.InsertQuad(dagaz.NewQuadFromProtobuf(q.proto()))
+			ref[samplerSess].InsertQuad(dagaz.NewQuadFromProtobuf(q.proto()))
 			if len(w.Panics()) > 0 {
 				viol = "server code panicked: " + w.Panics()[0]
 				return
 			}
-			if !check(fmt.Sprintf("after sample %d", i+1)) {
+			if !check(fmt.Sprintf("after sample %d (sent by connection %d in session %d)", i+1, sampler, samplerSess+1)) {
 				return
 			}
 		}
@@ -518,7 +562,7 @@ func runShared(t *testing.T, c sharedCase) (viol string) {
 }
 
 func TestC20Shared(t *testing.T) {
-	col := NewCollector("C20", "shared", "handler-level driver, dagaz loaded: 1-12 quad samples sent by changing members of one session while other members join and leave between samples; after every event a member asks for the debug info and a region covering everything; oracle: a local RegularGrid fed with exactly the same samples (differential) - plane count and the multiset of returned quads must agree, i.e. the index is shared by all members and kept while the session lives; non-trivial = distinct case with >=1 join and >=1 departure between samples")
+	col := NewCollector("C20", "shared", "handler-level driver, dagaz loaded: 1-12 quad samples sent by changing members of one or two sessions while other members join, leave and move from one session to the other between samples; after every event a member of each session asks for the debug info and a region covering everything; oracle: one local RegularGrid per session fed with exactly the samples sent to that session (differential) - plane count and the multiset of returned quads must agree, i.e. the index is shared by all members of a session, private to it, and kept while the session lives; non-trivial = distinct case with >=1 join and >=1 departure between samples")
 	t.Cleanup(col.Write)
 	if rp := os.Getenv("VERIF_REPLAY"); rp != "" {
 		var c sharedCase
@@ -535,12 +579,15 @@ func TestC20Shared(t *testing.T) {
 		if len(qs) > 12 {
 			qs = qs[:12]
 		}
-		c := sharedCase{Quads: qs}
-		joins, leaves := 0, 0
+		c := sharedCase{Quads: qs, Two: uni(rt, "two_sessions", 3) != 0}
+		joins, leaves, moves := 0, 0, 0
 		for range qs {
-			o := uni(rt, "op", 4)
+			o := uni(rt, "op", 5)
 			c.Ops = append(c.Ops, o)
-			c.Who = append(c.Who, uni(rt, "who", 6))
+			c.Who = append(c.Who, uni(rt, "who", 12))
+			if o == 4 && c.Two {
+				moves++
+			}
 			if o == 1 {
 				joins++
 			}
@@ -549,7 +596,7 @@ func TestC20Shared(t *testing.T) {
 			}
 		}
 		v := runShared(t, c)
-		col.Case(fmt.Sprint(c), v == "" && joins > 0 && leaves > 0, map[string]int{"join_between_samples": joins, "leave_between_samples": leaves}, func() any { return c })
+		col.Case(fmt.Sprint(c), v == "" && joins > 0 && leaves > 0, map[string]int{"join_between_samples": joins, "leave_between_samples": leaves, "member_moved_to_the_other_session": moves, "two_sessions": b2i(c.Two)}, func() any { return c })
 		if v != "" {
 			col.Violations++
 			saveCase("C20", c)
